@@ -1570,39 +1570,22 @@ func runC08IDUnmarshal(c *Ctx) {
 		if fn.Parent() != nil || fn.Name() != "Unmarshal" || len(fn.Params) != 2 {
 			continue
 		}
-		allInstrs(fn, func(in ssa.Instruction) {
-			iff, ok := in.(*ssa.If)
-			if !ok {
-				return
-			}
-			bo, ok := iff.Cond.(*ssa.BinOp)
-			if !ok {
-				return
-			}
-			isLen := func(v ssa.Value) bool {
-				call, ok := v.(*ssa.Call)
-				return ok && builtinName(call) == "len" && strip(call.Call.Args[0]) == ssa.Value(fn.Params[1])
-			}
-			var k int64
-			var isK bool
-			switch {
-			case isLen(bo.X):
-				k, isK = constInt(bo.Y)
-			case isLen(bo.Y):
-				k, isK = constInt(bo.X)
-			}
-			if !isK || k == 0 {
-				return
-			}
-			// the true side returns a non-nil error
-			t := iff.Block().Succs[0]
-			r, isRet := t.Instrs[len(t.Instrs)-1].(*ssa.Return)
-			if !isRet || len(resultsOf(r)) == 0 || isNilConst(resultsOf(r)[len(resultsOf(r))-1]) {
-				return
-			}
-			n++
-			c.Check(bo.Op == token.NEQ, "length test of "+fnName(fn)+" is exact", p.Pos(iff.Cond.Pos()), "len(data) != size", "the test is `"+bo.Op.String()+"`: an id longer than its size is accepted and silently truncated – a malformed request reaches the consumer with altered data and the sender is told it succeeded")
-		})
+		// one obligation per Unmarshal of an id type, decided on what happens to the bytes (robust_A4.go): they are
+		// consumed only across an edge on which `len(data) == size` holds – the early error return on `!=`, the positive
+		// `if ==` around the copy and `switch len(data) { case 0: …; case size: copy; default: error }` are the same test
+		if _, isBytes := fn.Params[1].Type().Underlying().(*types.Slice); !isBytes {
+			continue
+		}
+		uses, bad := inexactUses(fn, fn.Params[1], 0)
+		if uses == 0 {
+			continue
+		}
+		n++
+		pos := p.Pos(fn.Pos())
+		if len(bad) > 0 {
+			pos = p.Pos(bad[0].Pos())
+		}
+		c.Check(len(bad) == 0, "length test of "+fnName(fn)+" is exact", pos, "the bytes are consumed only where len(data) == size", "the bytes are consumed on a path on which their length was not found equal to the size: an id longer than its size is accepted and silently truncated – a malformed request reaches the consumer with altered data and the sender is told it succeeded")
 	}
 	if n == 0 {
 		c.Undecided("length tests of the id types", "-", "none found")
